@@ -365,7 +365,7 @@ func genC10(c *Ctx) {
 			return diff(f(o.(*bgv.Evaluator)), f(x.(*bgv.Evaluator)))
 		},
 		use: func(x interface{}) { bgvOps(x.(*bgv.Evaluator)) }})
-	add(c10Case{name: "bgv.Evaluator.WithKey",
+	add(c10Case{name: "bgv.Evaluator.WithKey", docShared: true,
 		mk:   func() (interface{}, interface{}) { o := bgv.NewEvaluator(bp, evk, true); return o, o.WithKey(evk2) },
 		same: func(o, x interface{}) string { return diff(bgvOps(o.(*bgv.Evaluator)), bgvOps(x.(*bgv.Evaluator))) },
 		use:  func(x interface{}) { bgvOps(x.(*bgv.Evaluator)) }})
@@ -509,7 +509,11 @@ func genC10(c *Ctx) {
 				}
 				c.Probe("shares_state_only_where_documented/"+cs.name, "-", "C10-docshared-"+cs.name, "")
 			} else if cs.use != nil || cs.deep {
-				c.Probe("copy_independent/"+cs.name, "-", "C10-independent-"+cs.name, d)
+				k := "C10-independent-" + cs.name
+				if cs.name == "rlwe.Encryptor.WithKey" {
+					k = "C10/Encryptor.WithKey/shares-state-undocumented"
+				}
+				c.Probe("copy_independent/"+cs.name, "-", k, d)
 			}
 			if cs.deep {
 				o3, x3 := cs.mk()
@@ -549,7 +553,7 @@ func genC10(c *Ctx) {
 		} else if deepHash(&c1a) != deepHash(&c1c) {
 			d = "copy-does-not-use-the-installed-PRNG"
 		}
-		c.Probe("copy_behaves_same/rlwe.Encryptor.ShallowCopy[afterWithPRNG]", "-", "C10-behaves-rlwe.Encryptor.ShallowCopy-PRNG", d)
+		c.Probe("copy_behaves_same/rlwe.Encryptor.ShallowCopy[afterWithPRNG]", "-", "C10/Encryptor.ShallowCopy/drops-WithPRNG", d)
 	}
 	// (2) shared automorphism-index cache: a Galois key that appears in the key set after the copies were made
 	{
